@@ -292,6 +292,12 @@ def draw_attr_value(draw, a, g, op=None):
         vals = ENUMS[en]
         if k.startswith('soft:') and not p.upper_names and draw(st.integers(0, 3)) == 0:
             return many(lambda: draw_ident(draw, p) or 'x'), True
+        if p.unit_enums and en != 'Unit' and draw(st.integers(0, 2)) == 0:
+            # members of the library's enum classes instead of their plain strings
+            from vf.spec.expect import ENUM_MEMBERS
+            members = sorted(ENUM_MEMBERS.get(en, {}))
+            if members:
+                return many(lambda: {'$enum': [en, draw(st.sampled_from(members))]}), True
         return many(lambda: draw(st.sampled_from(vals))), True
     if k == 'encrypted':
         return draw(st.sampled_from([0, 1, True, False])), True
